@@ -427,6 +427,72 @@ def check_axis_angle(acc: core.Acc, axis: tuple) -> None:
                 return
 
 
+BASIS_SCALES = (1.0, 1e-5, 3e-4, 5e-4, 0.03, 1000.0)
+
+
+def check_from_basis(acc: core.Acc, a: tuple) -> None:
+    """Matrix/Angle.from_basis with one, two or three basis vectors taken from the reference rotation of `a`, each scaled by
+    magnitudes from 1e-5 to 1000: always a proper rotation whose given axes point where asked."""
+    ra = ref_matrix(*a)
+    for scale in BASIS_SCALES:
+        axes = {'x': tuple(c * scale for c in ra[0]), 'y': tuple(c * scale for c in ra[1]), 'z': tuple(c * scale for c in ra[2])}
+        for given in (('x',), ('y',), ('z',), ('x', 'y'), ('y', 'z'), ('x', 'z'), ('x', 'y', 'z')):
+            for tname, cls in (('Matrix', Matrix), ('FrozenMatrix', FrozenMatrix)):
+                acc.evaluations += 1
+                case = {'basis_of': list(a)}
+                kw = {k: Vec(*axes[k]) for k in given}
+                m = cls.from_basis(**kw)
+                r = rows(m)
+                # a single, nearly vertical axis is completed with a fixed horizontal helper (the library's gimbal-lock rule,
+                # horizontal length under 0.001): like to_angle() in that zone, only ~2x that length is demanded there
+                u = ra['xyz'.index(given[0])]
+                tol = 2.5e-3 if (len(given) == 1 and u[0] ** 2 + u[1] ** 2 < 1.1e-6) else 1e-9
+                rrT = mat_prod(r, tuple(zip(*r)))
+                det = (r[0][0] * (r[1][1] * r[2][2] - r[1][2] * r[2][1]) - r[0][1] * (r[1][0] * r[2][2] - r[1][2] * r[2][0])
+                       + r[0][2] * (r[1][0] * r[2][1] - r[1][1] * r[2][0]))
+                if mdiff(rrT, ((1, 0, 0), (0, 1, 0), (0, 0, 1))) > tol or abs(det - 1.0) > tol:
+                    acc.fail('from_basis_not_rotation', case, f'{tname}.from_basis({kw}) = {r} is not a proper rotation (det {det})', given='+'.join(given))
+                    return
+                for k in given:
+                    i = 'xyz'.index(k)
+                    if vdiff(r[i], ra[i]) > tol:
+                        acc.fail('from_basis_axis_wrong', case, f'{tname}.from_basis({kw}): local {k} axis is {r[i]}, asked for direction {ra[i]}', given='+'.join(given))
+                        return
+                if len(given) >= 2 and mdiff(r, ra) > 1e-9:
+                    acc.fail('from_basis_axis_wrong', case, f'{tname}.from_basis({kw}) = {r}, the only rotation with those axes is {ra}', given='+'.join(given))
+                    return
+            if len(given) >= 1:
+                for aname, acls in (('Angle', Angle), ('FrozenAngle', FrozenAngle)):
+                    ang = acls.from_basis(**{k: Vec(*axes[k]) for k in given})
+                    want = rows(Matrix.from_basis(**{k: Vec(*ra['xyz'.index(k)]) for k in given}))
+                    if mdiff(rows(Matrix.from_angle(ang)), want) > 2e-3:
+                        acc.fail('from_basis_axis_wrong', {'basis_of': list(a)}, f'{aname}.from_basis of {given} scaled by {scale} gives {ang}, unit vectors give {want}', given='+'.join(given))
+                        return
+
+
+ANGSTR_BAD = ('', 'abc', '1 2', '1 2 3 4', None, '(1 2', 'nan nan')
+
+
+def check_from_angstr(acc: core.Acc, a: tuple, b: tuple) -> None:
+    """Matrix.from_angstr(text, fallback pitch/yaw/roll) is from_angle(Angle.from_str(text, fallback...)): for the text forms of
+    `a` and for unparsable values, where the fallback `b` is used."""
+    acc.evaluations += 1
+    p, y, r = a
+    texts = [f'{p} {y} {r}', f'({p} {y} {r})', f'[{p} {y} {r}]', f'<{p} {y} {r}>', f'{{{p} {y} {r}}}', Angle(p, y, r), FrozenAngle(p, y, r)] + list(ANGSTR_BAD)
+    for val in texts:
+        for tname, cls in (('Matrix', Matrix), ('FrozenMatrix', FrozenMatrix)):
+            try:
+                got = rows(cls.from_angstr(val, *b))
+                want = rows(Matrix.from_angle(Angle.from_str(val, *b)))
+            except Exception as exc:  # noqa: BLE001
+                acc.fail('from_angstr_differs', {'angstr_a': list(a), 'angstr_b': list(b)}, f'{tname}.from_angstr({val!r}, {b}) / Angle.from_str raised {type(exc).__name__}: {exc}')
+                return
+            if mdiff(got, want) > 1e-12:
+                acc.fail('from_angstr_differs', {'angstr_a': list(a), 'angstr_b': list(b)},
+                         f'{tname}.from_angstr({val!r}, {b}) = {got}; from_angle(Angle.from_str(...)) = {want}')
+                return
+
+
 def check_transform(acc: core.Acc, a: tuple, b: tuple) -> None:
     """The context-manager forms: Angle.transform() yields the angle's own matrix and stores the edited matrix back;
     Vec.transform() yields the identity and applies the edited matrix to the vector."""
@@ -505,10 +571,12 @@ def shard(spec) -> core.Acc:
         for a in a_list:
             guarded(acc, check_self_alias, {'self_alias': list(a)}, a)
             guarded(acc, check_near_sequence, {'near': list(a)}, a)
+            guarded(acc, check_from_basis, {'basis_of': list(a)}, a)
             for b in b_list:
                 guarded(acc, check_pair, {'a': list(a), 'b': list(b)}, a, b)
                 guarded(acc, check_mutated_reuse, {'reuse_a': list(a), 'reuse_b': list(b)}, a, b)
                 guarded(acc, check_transform, {'ta': list(a), 'tb': list(b)}, a, b)
+                guarded(acc, check_from_angstr, {'angstr_a': list(a), 'angstr_b': list(b)}, a, b)
         acc.sample({'a': list(a_list[0]), 'b': list(b_list[0])}, 1)
     return acc
 
@@ -537,7 +605,7 @@ def run(ctx: core.Ctx) -> None:
                 f'determinant, to_angle round trip (2h allowance under the 0.001 threshold), inverse vs transpose, and '
                 f'{len(VECS)} vectors x (Vec, FrozenVec, tuple) x (Angle, FrozenAngle, Matrix, FrozenMatrix) x (@, @=). Composition: '
                 f'all {len(pairs_a)}^2 ordered pairs of the {int(step)}-degree sub-lattice + {len(special)} special angles x the 4x4 '
-                f'rotation type matrix x (@, @=) with associativity on 3 vectors; for each first angle also the sequence of its 9 neighbours at 1e-7 / 3e-9 / -1e-8 degrees per component, converted one after another (results must not depend on earlier calls). Every pair also through the context managers Angle.transform() (yielded matrix = that of the angle, result stored back) and Vec.transform(). Matrix/FrozenMatrix.axis_angle for every non-zero axis with components in -2..3 (215) x 28 angles x (tuple, Vec, FrozenVec) against the Rodrigues formula: orthonormal, inverse = transpose, axis fixed, additive, Euler round trip. Reference: closed-form AngleVectors and the '
+                f'rotation type matrix x (@, @=) with associativity on 3 vectors; for each first angle also the sequence of its 9 neighbours at 1e-7 / 3e-9 / -1e-8 degrees per component, converted one after another (results must not depend on earlier calls). Every pair also through the context managers Angle.transform() (yielded matrix = that of the angle, result stored back) and Vec.transform(). from_basis with 1/2/3 axes of every first angle scaled by 1e-5..1000; from_angstr (5 bracket styles, angle objects, 7 unparsable values with the second angle as fallback) against from_angle(Angle.from_str()). Matrix/FrozenMatrix.axis_angle for every non-zero axis with components in -2..3 (215) x 28 angles x (tuple, Vec, FrozenVec) against the Rodrigues formula: orthonormal, inverse = transpose, axis fixed, additive, Euler round trip. Reference: closed-form AngleVectors and the '
                 f'roll-pitch-yaw product, both written in the harness. Non-trivial = every angle / pair (each enumerated once).')
 
 
@@ -545,6 +613,10 @@ def replay(case: dict) -> list:
     acc = core.Acc()
     if 'reuse_a' in case:
         guarded(acc, check_mutated_reuse, case, tuple(case['reuse_a']), tuple(case['reuse_b']))
+    elif 'basis_of' in case:
+        guarded(acc, check_from_basis, case, tuple(case['basis_of']))
+    elif 'angstr_a' in case:
+        guarded(acc, check_from_angstr, case, tuple(case['angstr_a']), tuple(case['angstr_b']))
     elif 'axis' in case:
         guarded(acc, check_axis_angle, case, tuple(case['axis']))
     elif 'ta' in case:
